@@ -161,12 +161,12 @@ class MyPyAstVisitor:
             # Can only be one, since a class can inherit "Generic" only one time
             generic_expr = getattr(generic_exprs[0], "index", None)
 
-            if isinstance(generic_expr, mp_nodes.TupleExpr):
-                generic_types = [item.node for item in generic_expr.items if hasattr(item, "node")]
-            elif isinstance(generic_expr, mp_nodes.NameExpr):
-                generic_types = [generic_expr.node]
-            else:  # pragma: no cover
-                raise TypeError("Unexpected type while parsing generic type.")
+            # Only type variables declare type parameters. Everything else (Sequence[int], Collection["A"], parameter
+            # specifications, unpacked type variable tuples, ...) is an ordinary type argument or cannot be expressed.
+            generic_items = generic_expr.items if isinstance(generic_expr, mp_nodes.TupleExpr) else [generic_expr]
+            generic_types = [
+                item.node for item in generic_items if isinstance(getattr(item, "node", None), mp_nodes.TypeVarExpr)
+            ]
 
             for generic_type in generic_types:
                 variance_type = mypy_variance_parser(generic_type.variance)
